@@ -16,7 +16,7 @@ REAL = ["spydrnet.composers.edif (composer, edifify_names)", "spydrnet.parsers.e
 STUB = ["file system (SimFS)", "read chunking (short reads)", "wall clock", "identity hash of IR objects "
         "(topological sort of libraries/cells iterates dependency sets)", "process restart between write and read"]
 
-NAME_POOL = ["a", "A", "ab", "a_b", "n1", "x y", "a[0]", "a[1]", "1a", "a-b", "a/b", "\\esc ", "$x", "a.b", "q(0)", "a%b", "50%", "%1%", "A.b", "A-B", "a b", "X Y"]
+NAME_POOL = ["a", "A", "ab", "a_b", "n1", "x y", "a[0]", "a[1]", "1a", "a-b", "a/b", "\\esc ", "$x", "a.b", "q(0)", "a%b", "50%", "%1%", "A.b", "A-B", "a b", "X Y", "caf\u00e9", "\u00b5s"]
 
 
 class C03(Prop):
